@@ -86,6 +86,9 @@ pub enum Term {
     Path(PathT),
     /// Name::new_field_name
     FieldName([u8; 4]),
+    /// an object that serialises to no bytes at all (`Name::new_field_name("")`); only used where
+    /// construction paths are compared byte for byte, never parsed
+    Empty,
     Name(PathT, Box<Term>),
     Package(Vec<Term>),
     PackageBuilder(Vec<Term>),
@@ -165,6 +168,7 @@ impl Term {
             Term::StaticStr(_) => "&'static str",
             Term::Path(_) => "Path",
             Term::FieldName(_) => "Name::new_field_name",
+            Term::Empty => "Name::new_field_name(\"\")",
             Term::Name(..) => "Name",
             Term::Package(_) => "Package",
             Term::PackageBuilder(_) => "PackageBuilder",
@@ -349,6 +353,7 @@ pub fn canon(t: &Term) -> P {
         Term::Str(s) | Term::StaticStr(s) => P::Str(s.as_bytes().to_vec()),
         Term::Path(p) => P::NameRef(p.clone()),
         Term::FieldName(s) => P::NameRef(PathT::one(s)),
+        Term::Empty => P::Str(Vec::new()), // never compared: Empty is not used in parsed workloads
         Term::Name(p, d) => P::Name(p.clone(), bx(d)),
         Term::Package(v) | Term::PackageBuilder(v) => P::Package { n: v.len() as u8, elems: list(v) },
         Term::VarPackage(n) => P::VarPackage { n: bx(n), elems: vec![] },
